@@ -40,6 +40,13 @@ for i in sorted(os.listdir(SEEDED)):
             for c, v in row["checks"].items():
                 if v["rc"] == 1 and v["violations"]:
                     parts.append("bin/check %s --tier quick -> VIOLATION, clauses %s" % (c, ", ".join(sorted(v["clauses"]))))
-            meta["detected_by"] = "; ".join(parts) if parts else "NOT DETECTED by the quick tier of " + ", ".join(row["checks"])
+            if parts:
+                meta["detected_by"] = "; ".join(parts)
+            elif row.get("demo_rc_with_change") == 0:
+                meta["detected_by"] = "no longer breaks the property: the demonstration passes with the change applied to the current tree (made harmless by a later fix: commit)"
+            else:
+                meta["detected_by"] = "NOT DETECTED by the quick tier of " + ", ".join(row["checks"])
+    elif "detected_by" not in meta:
+        meta["detected_by"] = "not re-swept against the final checks (the last sweep ran out of machine time); see DESIGN.md 0.5 for the round this change belongs to"
     json.dump(meta, open(mp, "w"), indent=1, ensure_ascii=False)
 print("meta.json written for", sum(1 for i in os.listdir(SEEDED) if re.fullmatch(r"[CG]\d\d-m\d+", i)), "seeded changes")
